@@ -9,10 +9,10 @@
     binds the prefix `xml` (to whatever URI: `xmlns:xml="zzz"`, `xmlns:xml=""`, and the permitted but
     never serialised `xmlns:xml="http://www.w3.org/XML/1998/namespace"`).  Everything else Namespaces
     in XML reserves (the prefix `xmlns`, other prefixes for the XML namespace name, the xmlns
-    namespace name, `xmlns:p=""`) is rejected by the parser since /repo c6c026f, f72a67d.
+    namespace name, `xmlns:p=""`) is rejected by the parser since /repo 5298f5f, d87cde0.
   * `PlainPiTargets env t`: every processing-instruction target is an NCName (no colon) — what
     `Representable` (Model/SerTokens.lean) asks and the tokenizer does NOT check.  The target `xml`
-    in any letter case is rejected by the parser since /repo 694537d.
+    in any letter case is rejected by the parser since /repo dd2a136.
 -/
 import XotModel.Model.SerTokens
 
